@@ -1,6 +1,7 @@
 package h
 
 import (
+	"sort"
 	"fmt"
 	"strings"
 	"time"
@@ -144,6 +145,7 @@ func (w *ClockWorld) Alphabet(tier int) []string {
 			ops = append(ops, ep+"|"+c)
 		}
 	}
+	ops = append(ops, "B.Drop|still") // the collection that may hold the newest CAS values goes away
 	if w.cfg.Disk {
 		ops = append(ops, "restart|-1h", "restart|still")
 	}
@@ -178,6 +180,15 @@ func (w *ClockWorld) Apply(op string) (string, []Violation) {
 		w.b2, w.a2 = b2, coll(b2, NameA)
 		// a new process only has to stay above what its on-disk buckets handed out before
 		w.issued = w.issued1
+		if hi := rosmar.VerifGlobalHLCHighest(); hi < w.issued1 {
+			return "ok", []Violation{{Prop: "C04", Op: op, Pre: "clock", Field: "restart-mark", Detail: fmt.Sprintf("after the restart the clock's high-water mark is %d, but the on-disk bucket had handed out %d before it was closed", hi, w.issued1)}}
+		}
+		return "ok", nil
+	}
+	if ep == "B.Drop" {
+		if err := w.b1.DropDataStore(NameB); err != nil {
+			return "err:" + ErrClass(err), nil
+		}
 		return "ok", nil
 	}
 	moveClock(parts[1])
@@ -331,7 +342,17 @@ func (w *ClockWorld) Canon() string {
 	// hidden state of the implementation that decides future CAS values: is the process clock's
 	// high-water mark at least the highest CAS handed out?
 	seeded := rosmar.VerifGlobalHLCHighest() >= w.issued
-	return fmt.Sprintf("b1=%s b2=%s clock=%s hlc-covers-issued=%v", cls(w.b1), cls(w.b2), rel, seeded)
+	// which collections exist, and which of the persisted marks covers what b1 has handed out
+	marks := "?"
+	if d, err := rosmar.VerifDumpAll(w.b1); err == nil {
+		var ms []string
+		for _, c := range d.Collections {
+			ms = append(ms, fmt.Sprintf("%s:%v", c.Name, c.LastCas >= w.issued1))
+		}
+		sort.Strings(ms)
+		marks = fmt.Sprintf("%v bucket:%v", ms, d.BucketLastCas >= w.issued1)
+	}
+	return fmt.Sprintf("b1=%s b2=%s clock=%s hlc-covers-issued=%v marks=%s", cls(w.b1), cls(w.b2), rel, seeded, marks)
 }
 
 func (w *ClockWorld) Close() {
